@@ -4,6 +4,7 @@ import (
 	"crypto/sha256"
 	"fmt"
 	"math/big"
+	"sort"
 	"strings"
 
 	"github.com/libsv/go-bk/base58"
@@ -664,6 +665,25 @@ func genC07(e *emitter, r *rng, thorough bool) {
 			s := append([]string{}, base...)
 			s[p] = w
 			e.emit("seed.nonword", "bip39.seed "+hx([]byte(strings.Join(s, " ")))+" -")
+		}
+	}
+	// a non-word for every possible first byte (letters that start no list word — x —, bytes before 'a' and after 'z',
+	// upper case, digits, bytes ≥ 0x80): a lookup that buckets by the first letter meets an empty or missing bucket
+	for c := 1; c < 256; c++ {
+		if c == ' ' || (c >= 9 && c <= 13) || c == 0x85 || c == 0xa0 {
+			continue // separators
+		}
+		forms := []string{string([]byte{byte(c)}), string([]byte{byte(c)}) + "ray"}
+		if !(c >= 'a' && c <= 'z') && c%8 != 0 {
+			forms = forms[:1]
+		}
+		for _, w := range forms {
+			if sort.SearchStrings(words, w) < len(words) && words[sort.SearchStrings(words, w)] == w {
+				continue
+			}
+			s := append([]string{}, base...)
+			s[(c*5)%12] = w
+			e.emit("seed.nonword.firstbyte", "bip39.seed "+hx([]byte(strings.Join(s, " ")))+" -")
 		}
 	}
 	// neighbours: a string strictly between two adjacent list words
